@@ -4,7 +4,8 @@ set -e
 cd "$(dirname "$0")"
 export CARGO_NET_OFFLINE=true
 mkdir -p .cache evidence
-(cd lean && lake build Acpi driver)
+# library, driver and every property-theorem module (so the first check after a restore is warm)
+(cd lean && lake build Acpi driver $(find Acpi/Props -name '*.lean' | sed 's/\.lean$//; s#/#.#g' | sort))
 [ -f harness/Cargo.lock ] || cp /repo/Cargo.lock harness/Cargo.lock
 export CARGO_TARGET_DIR="$PWD/.cache/target"
 export RUSTFLAGS="--cfg rust_vmm_acpi_tables_verif --check-cfg cfg(rust_vmm_acpi_tables_verif) -Awarnings"
